@@ -6,6 +6,7 @@
 
 #include "libparser.h"
 
+#include <unistd.h>
 #include <algorithm>
 #include <cerrno>
 #include <cxxabi.h>
@@ -40,6 +41,8 @@ std::string CallSpec::str() const
         os << " sinkfail@" << sink_fail_after;
     if (errno_before)
         os << " errno=" << errno_before;
+    if (cwd)
+        os << " cwd#" << cwd;
     return os.str();
 }
 
@@ -154,9 +157,9 @@ static void do_call(Session& s, const CallSpec& c, CallResult& r, std::string& p
     // everything the harness needs is prepared before begin_call so that the seam counts library work only
     std::string uri;
     if (c.entry == E_XML_FILE) {
-        store_put("in.xml", c.bytes);
+        sim_in_publish(c.bytes);
         set_next_file_sched(c.sched);
-        uri = "sim://in.xml";
+        uri = sim_in_path();
     } else if (c.entry == E_XML_FD) {
         fd = open_sim_fd(c.bytes, c.sched);
     } else if (c.entry == E_XTA_FILE || c.entry == E_PROP_FILE) {
@@ -168,6 +171,12 @@ static void do_call(Session& s, const CallSpec& c, CallResult& r, std::string& p
         else {
             uri = "sim://" + c.bytes;
             sink_reset(c.bytes);
+        }
+    }
+    // the working directory is part of the call's environment from the moment the client creates its builder
+    if (c.cwd) {
+        static const char* dirs[] = {"", "/", "/usr", "/var"};
+        if (chdir(dirs[c.cwd & 3]) != 0) {
         }
     }
     ParserBuilder* pb = (c.backend == B_DOC && load) || c.entry == E_WRITE ? nullptr : make_builder();
@@ -204,6 +213,8 @@ static void do_call(Session& s, const CallSpec& c, CallResult& r, std::string& p
     }
     end_call();
     r.ctx = g_op;
+    if (c.entry == E_XML_FILE)
+        sim_in_retire();
     if (fd >= 0)
         close_sim_fd(fd);
     if (f)
